@@ -34,6 +34,29 @@ def scenarios():
     return out
 
 
+def leftover_version_scenarios():
+    """(configuration, script) pairs: a version commit that is refused because the version directory already exists in
+    the object (left by an interrupted earlier commit / another process; created here by the driver) while the staged
+    version holds the same new content under two names; the leftover is removed, either name is overwritten, and
+    the commit repeated.  The refusal comes AFTER the store has resolved the object's root."""
+    out = []
+    for n, victim in enumerate(("x.txt", "y.txt")):
+        cfg = {"layout": ("0004", "0002")[n], "repo_spec": "1.1", "obj_spec": "1.1", "alg": ("sha512", "sha256")[n], "cdir": "content",
+               "pad": (0, 3)[n], "ext_staging": n == 1, "fresh_handle": n == 1}
+        o = "obj-0"
+        head2 = "v2" if cfg["pad"] == 0 else "v002"
+        cp = lambda name, k: {"op": "cp_ext", "id": o, "files": [[name, k]], "dst": name, "recursive": False}
+        script = [{"op": "new", "id": o}, cp("a.txt", 1), {"op": "commit", "id": o},
+                  cp("x.txt", 3), cp("y.txt", 3),
+                  {"op": "driver", "action": "mkdir", "id": o, "rel": head2},
+                  {"op": "commit", "id": o, "driver_dirty": True},                       # refused: the directory exists
+                  {"op": "driver", "action": "rmtree", "id": o, "rel": head2},
+                  cp(victim, 2),
+                  {"op": "commit", "id": o}]
+        out.append((cfg, script))
+    return out
+
+
 def i5_fails(inv):
     """c01_failed_commit_dedup of Model/KnownC01.v on a real (staged) inventory: some logical path of the head
     state has neither its own direct content path with its digest nor content committed in an earlier version"""
